@@ -80,7 +80,9 @@ BLANKS = (' ', '  ', '\t', '\n', ' \n', '\n ', '\n\n', ' \n \n ', '\n\t', '   ',
           # white space that is not one of TeX's spacer / end-of-line characters
           '\xa0', '\x0c', '\u2009', '\u2028', '\x85', '\r\n', ' \r\n')
 ESCAPES = ('\\$', '\\%', '\\&', '\\#', '\\_', '\\{', '\\}', '\\~', '\\^', '\\ ', '\\,', '\\;', '\\!', '\\"',
-           "\\'", '\\.', '\\|', '\\-', '\\/', '\\@', '\\\n', '\\\\', '\\\\', '\\<', '\\é')
+           "\\'", '\\.', '\\|', '\\-', '\\/', '\\@', '\\\n', '\\\\', '\\\\', '\\<', '\\é',
+           # a row end with its optional skip: the bracket does not follow a command, it is text
+           '\\\\[2pt]', '\\\\[-1.5em]', '\\\\ [3mm]', '\\\\*[.5ex]')
 MATH_ATOMS = ('a', 'b', 'x', 'n', '1', '2', '+', '-', '=', '<', '>', '/', '|', '.', ',', ':', ';', '!', "'",
               '^', '_', '&', ' ', '  ', '\n', '(', ')', '[', ']', '(', ']', '[', ')', '\\\\', '\\$', '\\{', '\\}',
               '\\,', '\\;', '\\!', '\\|', '\\ ', '*')
@@ -375,7 +377,8 @@ def stats(nodes):
 
 class Profile:
     def __init__(self, depth=3, sibs=4, twin=False, lists=1.0, defs=1.0, spaced=False, verb=1.0,
-                 math=1.0, comments=1.0, strict_sep=False, flat=0, ws=0.0, lines=0.0, plain=False, benign_verbatim=False):
+                 math=1.0, comments=1.0, strict_sep=False, flat=0, ws=0.0, lines=0.0, plain=False, benign_verbatim=False,
+                 wrap=None):
         self.depth = depth
         self.sibs = sibs
         self.twin = twin
@@ -391,6 +394,7 @@ class Profile:
         self.plain = plain  # C07.2: text without [ ], benign comments
         self.ws = ws        # probability that a text node is a single blank run
         self.lines = lines  # probability that a text node is a line break (+ indentation)
+        self.wrap = wrap    # '[' / '{': the whole document becomes ONE argument group of a command (a very long argument)
 
 
 class Ctx:
@@ -873,6 +877,9 @@ PROFILES = {
     'flat': Profile(depth=1, sibs=4, flat=250, lines=0.25),
     # wide small documents: 12-40 short siblings (two-digit indices) for the edit checks
     'wide': Profile(depth=1, sibs=3, flat=40, twin=True),
+    # a flat document of hundreds to thousands of tokens as ONE bracket / brace argument of a command
+    'longbracket': Profile(depth=1, sibs=4, flat=250, wrap='['),
+    'longbrace': Profile(depth=1, sibs=4, flat=250, wrap='{'),
     'smalllists': Profile(depth=2, sibs=3, twin=True, lists=3.0),
     'smalldefs': Profile(depth=2, sibs=3, twin=True, defs=3.0),
     'strict': Profile(depth=3, sibs=4, twin=True, strict_sep=True),
@@ -890,15 +897,21 @@ def wfdoc(draw, profile='quick', counters=None):
     prof = PROFILES[profile] if isinstance(profile, str) else profile
     cnt = {} if counters is None else counters
     g = Gen(draw, prof, cnt)
-    ctx = Ctx()
+    ctx = Ctx(bracket=(prof.wrap == '['), hostile_ok=not prof.wrap)
     nodes = g.body(ctx, prof.depth)
     if prof.flat:
         extra = g.int(prof.flat // 4, prof.flat)
         flat_prof_depth = 1
         for _ in range(extra):
             nodes.append(g.node(ctx, flat_prof_depth))
+    if prof.wrap:
+        if g.chance(0.5):
+            args = [Arg(prof.wrap, nodes), Arg('{', [Node('text', text='z')])]
+        else:
+            args = [Arg('{', [Node('text', text='k')]), Arg(prof.wrap, nodes)]
+        nodes = [Node('text', text='A '), Node('cmd', name='wrap', args=args), Node('text', text=' Z')]
     # a comment may end the document without a line break, at top level only
-    if nodes and nodes[-1].kind == 'comment' and g.chance(0.5):
+    elif nodes and nodes[-1].kind == 'comment' and g.chance(0.5):
         nodes[-1].delim = ''
     normalise(nodes, g, counters=cnt, strict=prof.strict_sep)
     return nodes
